@@ -1,6 +1,6 @@
 SPECIFICATION Spec
 CONSTANTS
-  MaxChars = 13
+  MaxChars = 17
   CharKinds = {1, 2}
   Per = 3
   Max = 4
